@@ -158,6 +158,8 @@ double MetaOptimizer::doStep()
         cout << endl;
 
       getParameters_().matchParametersValues(opt.getParameters());
+      // A step-wise optimizer may leave the function at its last trial point: put it at the point just adopted.
+      getFunction()->setParameters(getParameters());
     }
     tolTest += nbParameters_[i] > 0 ? 1 : 0;
   }
